@@ -2,9 +2,9 @@
 (* Trace validator for C12. One execution = one file image (intact or with one detectable corruption pattern inside one
    block's stored bytes or checksum field) and the observations made on it:
      VerifyTool [ok_printed, rc]           stdout / exit status of mtbl_verify
-     ReadRun [path, blocks, ended]         a reader with verify_checksums: blocks = data block of every entry returned
-                                           before the run ended ("normal" or "abort"); path = iterate | get | seek,
-                                           target = block holding the key (get / seek)
+     ReadRun [segs, ended]                 ONE reader with verify_checksums used by a sequence of iterators (segments:
+                                           iterate | get | seek, target = block holding the key); per segment the data
+                                           block of every entry returned before the run ended ("normal" or "abort")
    Judged as Checksum.tla states: mtbl_verify never reports a damaged file OK and always reports an intact one OK; the
    verifying reader never returns an entry of the damaged block and stops when it reaches it; an intact file reads fully. *)
 EXTENDS Integers, Sequences, FiniteSets, TLC, Json, IOUtils
@@ -18,17 +18,30 @@ TImage == Is("Image") /\ bad' = Ev.bad /\ nb' = Ev.nblocks          \* bad: -1 i
 TTool == /\ Is("VerifyTool")
          /\ IF bad = -1 THEN Ev.ok_printed /\ Ev.rc = 0 ELSE ~Ev.ok_printed /\ Ev.rc # 0
          /\ UNCHANGED <<bad, nb>>
-Blocks == {Ev.blocks[i] : i \in 1..Len(Ev.blocks)}
-\* the blocks a path loads, and the blocks whose entries it returns when nothing stops it
+\* A read run is a sequence of segments on ONE reader; a segment is one iterator: kind iterate | get | seek, target = the
+\* block holding the key (get / seek), blocks = data block of every entry it returned.
+\* the blocks a segment loads, in order, and the blocks whose entries it returns when nothing stops it
 \* (seek = a full iterator, which loads the first block when it is created, then seek to a key of block target, then drain)
-Loads(path, target) == IF path = "iterate" THEN 1..nb ELSE IF path = "get" THEN {target} ELSE {1} \cup target..nb
-Returns(path, target) == IF path = "iterate" THEN 1..nb ELSE IF path = "get" THEN {target} ELSE target..nb
+LoadSeq(kind, target) == IF kind = "iterate" THEN [i \in 1..nb |-> i]
+                         ELSE IF kind = "get" THEN <<target>>
+                         ELSE <<1>> \o [i \in 1..(nb - target + 1) |-> target + i - 1]
+Returns(kind, target) == IF kind = "iterate" THEN 1..nb ELSE IF kind = "get" THEN {target} ELSE target..nb
+SegBlocks(sg) == {sg.blocks[i] : i \in 1..Len(sg.blocks)}
+HitsBad(sg) == \E i \in 1..Len(LoadSeq(sg.kind, sg.target)) : LoadSeq(sg.kind, sg.target)[i] = bad
+\* what a segment returns when it is the one that reaches the damaged block: the entries of the blocks loaded before it
+Before(sg) == LET ls == LoadSeq(sg.kind, sg.target)
+                  k == CHOOSE i \in 1..Len(ls) : ls[i] = bad /\ \A j \in 1..(i - 1) : ls[j] # bad
+              IN {ls[j] : j \in 1..(k - 1)} \cap Returns(sg.kind, sg.target)
+FirstHit(segs) == LET hits == {i \in 1..Len(segs) : HitsBad(segs[i])} IN IF hits = {} THEN 0 ELSE CHOOSE i \in hits : \A j \in hits : i <= j
 TRead == /\ Is("ReadRun")
-         /\ IF bad = -1
-            THEN Ev.ended = "normal" /\ Blocks = Returns(Ev.path, Ev.target)
-            ELSE /\ bad \notin Blocks                                                 \* never an entry of the damaged block
-                 /\ (bad = 0 \/ bad \in Loads(Ev.path, Ev.target)) => Ev.ended = "abort"       \* the process stops instead
-                 /\ (bad # 0 /\ bad \notin Loads(Ev.path, Ev.target)) => (Ev.ended = "normal" /\ Blocks = Returns(Ev.path, Ev.target))
+         /\ LET segs == Ev.segs h == IF bad > 0 THEN FirstHit(segs) ELSE 0 IN
+            IF bad = 0 THEN Ev.ended = "abort" /\ \A i \in 1..Len(segs) : SegBlocks(segs[i]) = {}      \* index block: the open stops
+            ELSE IF h = 0
+                 THEN Ev.ended = "normal" /\ \A i \in 1..Len(segs) : SegBlocks(segs[i]) = Returns(segs[i].kind, segs[i].target)
+                 ELSE /\ Ev.ended = "abort"                                                  \* the process stops instead
+                      /\ \A i \in 1..(h - 1) : SegBlocks(segs[i]) = Returns(segs[i].kind, segs[i].target)
+                      /\ SegBlocks(segs[h]) = Before(segs[h])                             \* never an entry of the damaged block
+                      /\ \A i \in (h + 1)..Len(segs) : SegBlocks(segs[i]) = {}
          /\ UNCHANGED <<bad, nb>>
 TReset == Is("Reset") /\ bad' = -1 /\ nb' = 0
 TNext0 == TReset \/ TImage \/ TTool \/ TRead
